@@ -47,6 +47,16 @@ func (s *PSlice) Add(addrs ...boson.Address) {
 	for i, addr := range addrs {
 		po := s.po(addr.Bytes())
 		addrPo = append(addrPo, po)
+		// an address repeated inside the batch is added only once
+		for j := 0; j < i; j++ {
+			if addrs[j].Equal(addr) {
+				exists[i] = true
+				break
+			}
+		}
+		if exists[i] {
+			continue
+		}
 		if e, _ := s.index(addr, po); e {
 			exists[i] = true
 		} else {
